@@ -1,1 +1,178 @@
-//! Environment stubs shared by the harnesses (DESIGN.md section 2.2).
+//! Environment stubs shared by the harnesses (DESIGN.md section 2.2). Everything here is
+//! part of every claim that uses it and is listed in the evidence files.
+use rcgen::{Error, KeyPair, RemoteKeyPair, SignatureAlgorithm};
+
+/// S1: `std::hash::RandomState::new` -> fixed keys (the real one is a getrandom syscall).
+/// No map is ever non-empty in a Kani harness, so the keys are never used for hashing.
+pub fn random_state_stub() -> std::hash::RandomState {
+    unsafe { std::mem::transmute::<(u64, u64), std::hash::RandomState>((0x0123_4567_89ab_cdef, 0x0fed_cba9_8765_4321)) }
+}
+
+/// S4: `alloc::fmt::format` -> empty string, for harnesses whose subject is Ok/Err, not the message.
+pub fn format_stub(_args: core::fmt::Arguments<'_>) -> String {
+    String::new()
+}
+
+// ---------------------------------------------------------------------------------------
+// S3: the caller-side signer. `sign` records what it was asked to sign and returns either
+// an error or the signature bytes chosen by the harness.
+
+pub const MSG_CAP: usize = 640;
+
+pub struct SignLog {
+    pub calls: u32,
+    pub len: usize,
+    pub msg: [u8; MSG_CAP],
+}
+
+pub static mut SIGN_LOG: SignLog = SignLog { calls: 0, len: 0, msg: [0; MSG_CAP] };
+
+pub fn sign_log() -> &'static SignLog {
+    unsafe { &*core::ptr::addr_of!(SIGN_LOG) }
+}
+
+pub struct Remote {
+    pub id: u8,
+    pub pk: Vec<u8>,
+    pub alg: &'static SignatureAlgorithm,
+    pub sig: Vec<u8>,
+    pub fail: bool,
+}
+
+impl RemoteKeyPair for Remote {
+    fn public_key(&self) -> &[u8] {
+        &self.pk
+    }
+    fn sign(&self, msg: &[u8]) -> Result<Vec<u8>, Error> {
+        unsafe {
+            let log = &mut *core::ptr::addr_of_mut!(SIGN_LOG);
+            log.calls += 1;
+            log.len = msg.len();
+            let n = if msg.len() < MSG_CAP { msg.len() } else { MSG_CAP };
+            log.msg[..n].copy_from_slice(&msg[..n]);
+        }
+        if self.fail {
+            Err(Error::RemoteKeyError)
+        } else {
+            Ok(self.sig.clone())
+        }
+    }
+    fn algorithm(&self) -> &'static SignatureAlgorithm {
+        self.alg
+    }
+}
+
+/// The public algorithm table, by index (order of `SignatureAlgorithm::iter()` without
+/// aws-lc-rs) plus RSA-PSS at index 6 (crate-private in rcgen, reachable through remote keys only via the hook).
+pub const N_ALGS: usize = 6;
+pub fn alg_by_index(i: usize) -> &'static SignatureAlgorithm {
+    match i {
+        0 => &rcgen::PKCS_RSA_SHA256,
+        1 => &rcgen::PKCS_RSA_SHA384,
+        2 => &rcgen::PKCS_RSA_SHA512,
+        3 => &rcgen::PKCS_ECDSA_P256_SHA256,
+        4 => &rcgen::PKCS_ECDSA_P384_SHA384,
+        5 => &rcgen::PKCS_ED25519,
+        _ => rcgen::verif_hooks::rsa_pss_sha256(),
+    }
+}
+
+/// Arbitrary entry of the public table.
+pub fn any_alg_index() -> usize {
+    let i: usize = kani::any();
+    kani::assume(i < N_ALGS);
+    i
+}
+
+pub fn any_bytes<const N: usize>() -> Vec<u8> {
+    let a: [u8; N] = kani::any();
+    a.to_vec()
+}
+
+/// A remote key pair with symbolic public key bytes (N) and symbolic signature bytes (M).
+pub fn remote_key<const N: usize, const M: usize>(id: u8, alg: usize, fail: bool) -> (KeyPair, Vec<u8>, Vec<u8>) {
+    let pk = any_bytes::<N>();
+    let sig = any_bytes::<M>();
+    let r = Remote { id, pk: pk.clone(), alg: alg_by_index(alg), sig: sig.clone(), fail };
+    (KeyPair::from_remote(Box::new(r)).unwrap(), pk, sig)
+}
+
+// ---------------------------------------------------------------------------------------
+// S2: ring::digest::digest as a memoised uninterpreted function (configuration `ring`).
+#[cfg(feature = "ring")]
+pub mod digest_stub {
+    use ring::digest::{Algorithm, Digest};
+
+    pub const CAP: usize = 4;
+    pub const DATA_CAP: usize = 96;
+
+    pub struct Entry {
+        pub alg: *const Algorithm,
+        pub len: usize,
+        pub data: [u8; DATA_CAP],
+        pub out: [u64; 8],
+    }
+
+    pub struct Table {
+        pub n: usize,
+        pub e: [Entry; CAP],
+    }
+
+    const EMPTY: Entry = Entry { alg: core::ptr::null(), len: 0, data: [0; DATA_CAP], out: [0; 8] };
+    pub static mut TABLE: Table = Table { n: 0, e: [EMPTY; CAP] };
+
+    /// Mirror of ring 0.17's `Digest` (private fields); the layout is asserted by `layout_ok`.
+    #[repr(C)]
+    struct Mirror {
+        algorithm: &'static Algorithm,
+        value: [u64; 8],
+    }
+
+    /// `digest(alg, data)`: same (alg, data) -> same output; new input -> fresh symbolic output.
+    pub fn digest(algorithm: &'static Algorithm, data: &[u8]) -> Digest {
+        unsafe {
+            let t = &mut *core::ptr::addr_of_mut!(TABLE);
+            let mut i = 0;
+            while i < t.n {
+                let e = &t.e[i];
+                if core::ptr::eq(e.alg, algorithm) && e.len == data.len() {
+                    let mut same = true;
+                    let mut k = 0;
+                    while k < data.len() && k < DATA_CAP {
+                        if e.data[k] != data[k] {
+                            same = false;
+                        }
+                        k += 1;
+                    }
+                    if same {
+                        return core::mem::transmute::<Mirror, Digest>(Mirror { algorithm, value: e.out });
+                    }
+                }
+                i += 1;
+            }
+            assert!(t.n < CAP, "ENV:digest-table-full");
+            assert!(data.len() <= DATA_CAP, "ENV:digest-input-too-long");
+            let out: [u64; 8] = kani::any();
+            let e = &mut t.e[t.n];
+            e.alg = algorithm;
+            e.len = data.len();
+            let mut k = 0;
+            while k < data.len() {
+                e.data[k] = data[k];
+                k += 1;
+            }
+            e.out = out;
+            t.n += 1;
+            core::mem::transmute::<Mirror, Digest>(Mirror { algorithm, value: out })
+        }
+    }
+
+    /// Guard against a wrong guess of `Digest`'s layout: must hold in every harness using S2.
+    pub fn layout_ok() {
+        let d = digest(&ring::digest::SHA256, &[1, 2, 3]);
+        assert!(core::ptr::eq(d.algorithm(), &ring::digest::SHA256), "ENV:digest-layout-alg");
+        assert!(d.as_ref().len() == 32, "ENV:digest-layout-len");
+        let d = digest(&ring::digest::SHA512, &[]);
+        assert!(d.as_ref().len() == 64, "ENV:digest-layout-len512");
+    }
+}
